@@ -316,6 +316,11 @@ int QSexact_verify (
    const int msg_lvl
    );
 
+#ifdef QSX_VERIF
+/* verification hook, see exact.c */
+extern void (*qsx_trace_cb) (int event, int level, int value);
+#endif
+
 /* ========================================================================= */
 /** @brief Given an mpq_QSdata problem, solve it exactly.
  * @param x if not null, we store here the primal solution to the 
